@@ -137,6 +137,45 @@ def execDelete (exists_ : Bool) (cur : String) (force : Bool) : DeleteRes :=
     else .deleted
   else if !exists_ then .notFound else .deleted
 
+/-! ### the `force` query argument (`types.boolean`: `strutils.bool_from_string(strict=True)`)
+
+The text is stripped and lower-cased (ASCII here), then looked up in oslo.utils' TRUE/FALSE
+strings; anything else is refused with 400 before the method body runs.  Absent ⇒ the default
+`False`. -/
+
+def trueStrings : List String := ["1", "t", "true", "on", "y", "yes"]
+def falseStrings : List String := ["0", "f", "false", "off", "n", "no"]
+
+def lowerAscii (c : Char) : Char :=
+  if 'A' ≤ c ∧ c ≤ 'Z' then Char.ofNat (c.toNat + 32) else c
+
+def isSpace (c : Char) : Bool :=
+  c == ' ' || c == '\t' || c == '\n' || c == '\r' || c == '\x0b' || c == '\x0c'
+
+/-- python `text.strip().lower()` on ASCII text. -/
+def normalise (s : String) : String :=
+  String.ofList (((s.toList.dropWhile isSpace).reverse.dropWhile isSpace).reverse.map lowerAscii)
+
+def boolFromString (s : String) : Option Bool :=
+  let t := normalise s
+  if trueStrings.contains t then some true
+  else if falseStrings.contains t then some false
+  else none
+
+inductive DeleteReqRes where
+  | badRequest                -- 400, argument refused, nothing runs
+  | res (r : DeleteRes)
+  deriving DecidableEq, Repr
+
+/-- The DELETE request as sent: `force` absent or the text of the query argument. -/
+def execDeleteReq (exists_ : Bool) (cur : String) (force : Option String) : DeleteReqRes :=
+  match force with
+  | none => .res (execDelete exists_ cur false)
+  | some t =>
+    match boolFromString t with
+    | none => .badRequest
+    | some b => .res (execDelete exists_ cur b)
+
 /-! ## PUT /v2/tasks/{id}  (task.py `put`) -/
 
 inductive TaskPutErr where
